@@ -103,6 +103,10 @@ var stmtFaults = []stmtFault{
 	{"toomany", " f1(1, 2)§", "false", true, false},
 	{"fieldmissing", " d.Nofield = 1§", "false", true, false},
 	{"strkeyslice", " y = d.SL[\"k\"]§", "false", true, false},
+	// a return whose value cannot be handed out (unexported field); a forRange whose body grows the ranged slice
+	{"retunexported", " return d.hidden§", "false", false, false},
+	{"rangegrow", " forRange k := qq.Items {§\n  qq.Push(k)\n }", "true", false, false},
+	{"rangegrowmap", " forRange k := qq.M {§\n  qq.Put(k)\n }", "true", false, false},
 	// the same call text twice in one rule: the first occurrence succeeds, the second one fails
 	{"repeatfn", " q = 1\n y = inv(q)\n q = z\n y = inv(q)§", "z != 0", true, false},
 	{"repeatfnstmt", " q = 1\n inv(q)\n q = z\n inv(q)§", "z != 0", true, false},
@@ -117,7 +121,16 @@ func (in *In) Get(a int64) int64 { return in.A + a }
 func (in *In) GetB(a bool) int64 { return in.A }
 func (in *In) Inv(a int64) int64 { return 100 / a }
 
+type Queue struct {
+	Items []int64
+	M     map[int64]int64
+}
+
+func (q *Queue) Push(k int64) { q.Items = append(q.Items, k+100) }
+func (q *Queue) Put(k int64)  { q.M[k+100] = k }
+
 type CD struct {
+	hidden int64
 	I  int64
 	SL []int64
 	NM map[string]int64
@@ -156,6 +169,7 @@ func mkWorld() *world {
 	w.dc.Add("f1", func(a int64) int64 { return a })
 	w.dc.Add("fb", func(a bool) int64 { return 1 })
 	w.dc.Add("inv", func(a int64) int64 { return 100 / a })
+	w.dc.Add("qq", &Queue{Items: []int64{1, 2, 3}, M: map[int64]int64{1: 1, 2: 2}})
 	w.dc.Add("boom", func() int64 { panic("boom") })
 	w.dc.Add("boomint", func() int64 { panic(42) })
 	w.dc.Add("boomstruct", func() int64 { panic(In{A: 7}) })
